@@ -429,3 +429,18 @@ func (w *World) AddrRoot(v ssa.Value) (ssa.Value, int) {
 	}
 	return v, steps
 }
+
+// CallersOf lists the functions with a call edge to f (in deterministic order).
+func (g *CallGraph) CallersOf(f *ssa.Function) []*ssa.Function {
+	var out []*ssa.Function
+	for from, tos := range g.Out {
+		for _, t := range tos {
+			if t == f {
+				out = append(out, from)
+				break
+			}
+		}
+	}
+	sort.Slice(out, func(i, j int) bool { return out[i].String() < out[j].String() })
+	return out
+}
